@@ -75,6 +75,32 @@ const char *entryName(int e) {
   return n[e];
 }
 
+// the spline factor b inside an operator expression of a chosen shape (the
+// grid check has to survive every wrapper around the factor)
+constexpr int FACTOR_SHAPES = 10;
+const char *factorShapeName(int s) {
+  static const char *n[] = {"V", "c*V", "V*c", "V/c", "-V", "c*(X*V)", "Dx+c*V",
+                            "V+c", "c-V", "(V*Dx)/2"};
+  return n[s];
+}
+template <typename T, typename F>
+void factorShape(int shape, const T &cs, F &&f) {
+  using namespace bspline::operators;
+  // f receives a maker: maker(v) builds the expression around the factor v
+  switch (shape) {
+    case 0: f([&](const auto &v) { return SplineOperator{v}; }); break;
+    case 1: f([&](const auto &v) { return cs * SplineOperator{v}; }); break;
+    case 2: f([&](const auto &v) { return SplineOperator{v} * cs; }); break;
+    case 3: f([&](const auto &v) { return SplineOperator{v} / cs; }); break;
+    case 4: f([&](const auto &v) { return -SplineOperator{v}; }); break;
+    case 5: f([&](const auto &v) { return cs * (X<1>{} * SplineOperator{v}); }); break;
+    case 6: f([&](const auto &v) { return Dx<1>{} + cs * SplineOperator{v}; }); break;
+    case 7: f([&](const auto &v) { return SplineOperator{v} + cs; }); break;
+    case 8: f([&](const auto &v) { return cs - SplineOperator{v}; }); break;
+    default: f([&](const auto &v) { return (SplineOperator{v} * Dx<1>{}) / 2; }); break;
+  }
+}
+
 struct Outcome {
   bool threw = false, libException = false, rightCode = false;
   std::string what;
@@ -202,6 +228,8 @@ void gridCase(Ctx &c, Rng &g, int diff, int entry) {
     return mkSpline<T, ob>(g1, wb.start, wb.end, cmb);
   };
   bool twinMismatch = false;
+  const int shape = (int)g.below(FACTOR_SHAPES);
+  const T fcs = mk<T>(genScalar(g, dyadic));
   switch (entry) {
     case E_ADD:
       out = attempt([&] {
@@ -293,19 +321,23 @@ void gridCase(Ctx &c, Rng &g, int diff, int entry) {
       // b is the factor; required to throw only if the operator is applied to
       // at least one interval of the operand
       mustThrow = different && wa.nint() > 0;
+      c.count(std::string("factor-shape:") + factorShapeName(shape));
       out = attempt([&] {
-        auto r = SplineOperator{b} * a;
-        if (!different && !(r == SplineOperator{sharedB()} * a))
-          twinMismatch = true;
+        factorShape<T>(shape, fcs, [&](auto mkop) {
+          auto r = mkop(b) * a;
+          if (!different && !(r == mkop(sharedB()) * a)) twinMismatch = true;
+        });
       });
       break;
     case E_FACTOR_LINEAR:
       mustThrow = different && wa.nint() > 0;
+      c.count(std::string("factor-shape:") + factorShapeName(shape));
       out = attempt([&] {
-        const T v = LinearForm{Dx<1>{} * SplineOperator{b}}(a);
-        if (!different &&
-            !(v == LinearForm{Dx<1>{} * SplineOperator{sharedB()}}(a)))
-          twinMismatch = true;
+        factorShape<T>(shape, fcs, [&](auto mkop) {
+          const T v = LinearForm{Dx<1>{} * mkop(b)}(a);
+          if (!different && !(v == LinearForm{Dx<1>{} * mkop(sharedB())}(a)))
+            twinMismatch = true;
+        });
       });
       break;
     case E_FACTOR_BILINEAR: {
@@ -317,11 +349,17 @@ void gridCase(Ctx &c, Rng &g, int diff, int entry) {
                    hi = std::min(wa.end, w2.end);
       const bool share = !wa.empty() && hi > lo && hi - lo >= 2;
       mustThrow = different && share;
+      c.count(std::string("factor-shape:") + factorShapeName(shape));
+      const bool leftSlot = g.chance(1, 2);
       out = attempt([&] {
-        const T v = BilinearForm{X<1>{} + SplineOperator{b}}(a, a2);
-        if (!different &&
-            !(v == BilinearForm{X<1>{} + SplineOperator{sharedB()}}(a, a2)))
-          twinMismatch = true;
+        factorShape<T>(shape, fcs, [&](auto mkop) {
+          auto form = [&](const auto &fac) {
+            return leftSlot ? BilinearForm{X<1>{} + mkop(fac), Dx<1>{}}(a, a2)
+                            : BilinearForm{Dx<1>{}, X<1>{} + mkop(fac)}(a, a2);
+          };
+          const T v = form(b);
+          if (!different && !(v == form(sharedB()))) twinMismatch = true;
+        });
       });
       if (different && !share) c.count("factor-bilinear:not-judged-no-common-interval");
       break;
